@@ -5,6 +5,7 @@ from pipe_common import PipeSpec
 
 PROP_FILES = ["C10"]
 SPECS = {"scale": (ScaleSpec(['pipe', 'pipe-trysend-storm', 'pipe-idle-next']), "harness", "runner"), "pipe": (PipeSpec(), "harness_pipe", "runner-pipe")}
+SPECS["scale-deep"] = SPECS["scale"]
 
 
 def run(ctx):
@@ -29,5 +30,12 @@ def run(ctx):
                      "no call blocked without its documented reason at quiescence); distinct = hash of (cfg, script); non-trivial = >= 1 Send/TrySend and >= 1 Next")
     ctx.assumptions.append("Next is called by one goroutine at a time (the harness never starts a Next while another is pending); PipeSender.Close and the receiver's Close are called at most once (a second call panics in Go)")
     ctx.assumptions.append("the model lets a receive complete the send of ANY parked sender (Go picks the longest-parked one): over-approximation, the theorems hold for the larger set of runs")
-    vlib.handle_broken_proof(ctx)
+    def deep():
+        # only when an obligation (e.g. the source census) no longer checks: long idle periods, big storms
+        vlib.patience_part(ctx, PipeSpec(), exe, proofs_ok, tag="pipe", ncases=24, ms=6500)
+        if okS:
+            sp = ScaleSpec(['pipe-trysend-storm', 'pipe-idle-next'])
+            sp.force_big = True
+            vlib.seq_differential(ctx, sp, exeS, proofs_ok, tag="scale-deep")
+    vlib.handle_broken_proof(ctx, deep if ctx.tier == "quick" else None)
     ctx.finish(trusted_extra=["harness_pipe (separate Go module: pipe.go scenario interpreter, conc.go quiescence detection) and props/pipe_common.py (generator, event printing, direct oracle)"])
